@@ -70,4 +70,20 @@ FilterClause(In, key, vals, OutF, OutX, In2) ==
   ELSE IF OutF # SelectSeq(In, LAMBDA e : Pred(e, key, vals)) THEN "filter-is-not-the-matching-subsequence"
   ELSE IF OutX # SelectSeq(In, LAMBDA e : ~Pred(e, key, vals)) THEN "exclude-is-not-the-complementary-subsequence"
   ELSE "none"
+
+\* ---- concat ----
+ConcatClause(A, B, Out, A2, B2) ==
+  IF A2 # A \/ B2 # B THEN "input-modified"
+  ELSE IF Out # A \o B THEN "not-the-concatenation"
+  ELSE "none"
+
+\* ---- filter_keyvals_regex (string values only) ----
+\* A string value is a set of abstract tokens (concretised as words); a regex is one token (concretised as
+\* that literal), "any" (the empty regex), "dot" (".": any non-empty string; "e" is the empty string) or "never".
+Tokens(v) == CASE v = "v1" -> {"alpha"} [] v = "v2" -> {"beta"} [] v = "v12" -> {"alpha", "beta"} [] v = "e" -> {} [] OTHER -> {}
+RxMatch(rx, v) == CASE rx = "any" -> TRUE [] rx = "dot" -> v # "e" [] rx = "never" -> FALSE [] OTHER -> rx \in Tokens(v)
+RegexClause(In, key, rx, Out, In2) ==
+  IF In2 # In THEN "input-modified"
+  ELSE IF Out # SelectSeq(In, LAMBDA e : Has(e, key) /\ RxMatch(rx, e.data[key])) THEN "regex-filter-is-not-the-matching-subsequence"
+  ELSE "none"
 =============================================================================
